@@ -161,12 +161,18 @@ def check(ctx):
                     nums.append(np.array([(float(np.ravel(post.logpdf(x + h * e))[0]) - float(np.ravel(post.logpdf(x - h * e))[0])) / (2 * h) for e in np.eye(d)]))
                 h = 1e-4
                 num = min(nums, key=lambda v: float(np.max(np.abs(v - g))) if np.all(np.isfinite(v)) and np.all(np.isfinite(g)) else float('inf'))
+                # the numerical derivative is a usable reference only where it is stable in the step size (it is not at the bottom of
+                # a needle-shaped surrogate, gradients ~1e7): otherwise this oracle abstains (the Float instantiation still compares)
+                fin = [v for v in nums if np.all(np.isfinite(v))]
+                spread = max([float(np.max(np.abs(a_ - b_))) for a_ in fin for b_ in fin] + [0.0])
+                stable = spread <= 5e-3 * max(1e-6, float(np.max(np.abs(num))))
+                ctx.count('derivative.reference', 'stable' if stable else 'abstain')
                 if not np.all(np.isfinite(g)) and math.isfinite(lp):
                     ctx.fail_input(where, 'gradient_logpdf is %s at a point inside the bounds where logpdf = %r is finite (derivative ~ %s)' % (g.tolist(), lp, num.tolist()), num.tolist(), [str(v) for v in g])
                     bad = True
                     break
                 inside_h = all(lo + 2 * h < xi < hi - 2 * h for xi, (lo, hi) in zip(x, bounds))
-                if inside_h and not np.allclose(g, num, rtol=2e-3, atol=2e-4 + 2e-3 * float(np.max(np.abs(num)))):
+                if inside_h and stable and not np.allclose(g, num, rtol=2e-3, atol=2e-4 + 2e-3 * float(np.max(np.abs(num)))):
                     ctx.fail_input(where, 'gradient_logpdf %s is not the derivative of logpdf %s' % (g.tolist(), num.tolist()), num.tolist(), g.tolist())
                     bad = True
                     break
@@ -256,7 +262,7 @@ def check(ctx):
             g_each = np.array([np.ravel(post2.gradient_logpdf(p_)) for p_ in pts2])
             l_each = np.array([float(np.ravel(post2.logpdf(p_))[0]) for p_ in pts2])
             ctx.count('query', 'mixed-batch')
-            if gm2.shape != (4, d) or not np.allclose(gm2, g_each, rtol=1e-5, atol=1e-9) or not np.allclose(lm2, l_each, rtol=1e-7, equal_nan=False):
+            if gm2.shape != (4, d) or not np.allclose(gm2, g_each, rtol=1e-3, atol=1e-9) or not np.allclose(lm2, l_each, rtol=1e-6, equal_nan=False):
                 ctx.fail_input(dict(case, at=ph, x=pts2.tolist()), 'a query of several points (inside and outside the bounds mixed) gives gradients %s / log densities %s, '
                                'the points one by one give %s / %s' % (gm2.tolist(), lm2.tolist(), g_each.tolist(), l_each.tolist()))
                 bad = True
@@ -268,7 +274,7 @@ def check(ctx):
             mat = np.asarray(post.logpdf(pts))
             gmat = np.asarray(post.gradient_logpdf(pts))
             each = [float(np.ravel(post.logpdf(p_))[0]) for p_ in pts]
-            if mat.shape != (4,) or gmat.shape != (4, d) or not np.allclose(mat, each, rtol=1e-9, equal_nan=False) or np.any(gmat[1] != 0):
+            if mat.shape != (4,) or gmat.shape != (4, d) or not np.allclose(mat, each, rtol=1e-6, equal_nan=False) or np.any(gmat[1] != 0):
                 ctx.fail_input(dict(case, x=pts.tolist()), 'a 2-D shaped query gives %s, the rows one by one give %s' % (mat.tolist(), each))
                 bad = True
             if d == 1:
@@ -276,7 +282,11 @@ def check(ctx):
                 if np.ndim(sc) != 0 or not math.isclose(float(sc), each[3], rel_tol=1e-9):
                     ctx.fail_input(dict(case, x=float(inner[0])), 'a scalar query gives %r, expected the scalar %r' % (sc, each[3]))
                     bad = True
-            if abs(float(np.ravel(flat)[0]) - each[3]) > 1e-7 * max(1, abs(each[3])):
+            mu_i, var_i = gp.predict(inner)
+            z_i = abs(float((thr - np.ravel(mu_i)[0]) / math.sqrt(float(np.ravel(var_i)[0]))))
+            ctx.count('phase.consistency', 'compared' if z_i < 30 else 'abstain (|z| >= 30)')
+            # (beyond |z| = 30 the 1e-7 agreement of the two prediction paths is amplified by z**2 in the log density)
+            if z_i < 30 and abs(float(np.ravel(flat)[0]) - each[3]) > 1e-6 * max(1, abs(each[3])):
                 ctx.fail_input(dict(case, x=inner.tolist()), 'the log posterior differs between the sampling phase (%r) and the fitting phase (%r)' % (float(np.ravel(flat)[0]), each[3]))
                 bad = True
             if bad:
